@@ -358,6 +358,17 @@ def check_c13(ctx, ana, case, judge=True, flag_log=None):
                     ctx.count('releases')
                     if not (MT[k - 1] * D > 0):
                         viol('release-against-torque', {'instant': k, 'motor_torque_prev': MT[k - 1], 'duty_cycle': D})
+                    # the same rule with the motor's net torque taken from the documented laws at the held state (zero speed,
+                    # recorded duty cycle, the user's load at the recorded position and time) instead of the recorded torque
+                    Tmax_, w0_, i0_, imax_ = motor_consts(ana.spec)
+                    load_ = getattr(tr, 'load', None) or ana.spec['load']
+                    Tl_ = load_value(load_, tr.time[k - 1], ana.L['angular position'][k - 1], ana.L['angular speed'][k - 1])
+                    ref_net = RM.torque(Tmax_, w0_, i0_, imax_, tr.pwm[k - 1], Mw[k - 1]) - Tl_ / nums['E']          # E = product of ratio x efficiency along the chain
+                    sc_ = abs(Tmax_) + abs(Tl_ / nums['E'])
+                    ctx.count('releases_checked_against_reference_torque')
+                    if ref_net * D < -1e-6 * sc_ and not (load_.get('step_t') is not None and abs(tr.time[k - 1] - load_['step_t']) <= 1e-9 * max(abs(tr.time[k - 1]), 1e-300)):
+                        viol('release-against-reference-torque', {'instant': k, 'duty_cycle': D, 'recorded_motor_torque_prev': MT[k - 1], 'reference_motor_torque_prev': ref_net,
+                                                                   'motor_speed_prev': Mw[k - 1], 'load_prev': Tl_})
             # a held-looking instant while free is only legitimate with zero net torque
             if held and ana.L['torque'][k] != 0 and k > 0:
                 viol('held-while-free', {'instant': k, 'duty_cycle_in_force': D, 'motor_torque_prev': MT[k - 1], 'advanced_speed': ana.w_adv[k]})
